@@ -1,0 +1,17 @@
+//go:build !verif
+// +build !verif
+
+package cluster
+
+import "time"
+
+// Verification trace points of the per-lease background loops (see
+// util/veriftrace). Without the "verif" build tag they are empty methods and
+// the call sites compile to nothing.
+
+func (m *deploymentMonitor) vt(event string, kv ...interface{}) {}
+
+// vtTimer is a verification scheduling point; it returns its argument without the verif build tag.
+func (m *deploymentMonitor) vtTimer(ch <-chan time.Time) <-chan time.Time { return ch }
+
+func (dw *deploymentWithdrawal) vt(event string, kv ...interface{}) {}
